@@ -135,36 +135,48 @@ class Renderer:
         return "[]"
 
     def r_str(self, n):
+        """n[2]: False -- an ordinary literal; True -- a raw literal (r"..."; "works the same as normal formatting
+        strings, but escape sequences are left intact": %% and the directives keep their meaning); "mixed" --
+        a continued literal whose segments are alternately raw and ordinary ("a"\ r"b"\ "c")."""
         parts, raw = n[1], n[2]
-        chunks = []          # atomic pieces of the literal's body
+        st = self.o.get("escstyle", 0)
+        atoms = []          # (text inside a raw segment, text inside an ordinary segment); never split inside one
         for p in parts:
             if isinstance(p, bytes):
-                if raw:
-                    chunks.extend(chr(b) for b in p)
-                else:
-                    st = self.o.get("escstyle", 0)
-                    chunks.extend(esc_bytes(p[i:i + 1], st) for i in range(len(p)))
+                i = 0
+                while i < len(p):
+                    # in a raw segment a backslash and the byte after it are lexed (and kept) as a pair
+                    k = 2 if (raw and p[i] == 0x5c and i + 1 < len(p)) else 1
+                    piece = p[i:i + k]
+                    atoms.append(("".join("%%" if b == 0x25 else chr(b) for b in piece),
+                                  "".join(esc_bytes(piece[j:j + 1], st) for j in range(len(piece)))))
+                    i += k
             else:
                 sug = splice_sugar(p) if self.o.get("sugar", True) else None
                 if sug:
-                    chunks.append(sug)
+                    atoms.append((sug, sug))
                 else:
                     self.in_splice += 1
                     try:
-                        chunks.append("%(" + self.sp() + self.r(p) + self.sp() + "%)")
+                        t = "%(" + self.sp() + self.r(p) + self.sp() + "%)"
                     finally:
                         self.in_splice -= 1
+                    atoms.append((t, t))
         split = self.o.get("split")
-        if split and not raw and len(chunks) > 1:
-            out = ""
-            for i, c in enumerate(chunks):
-                if i and split(i):
-                    out += '"\\' + self.o.get("splitws", " ") + '"'
-                out += c
-            body = out
-        else:
-            body = "".join(chunks)
-        return ('r"' if raw else '"') + body + '"'
+        if raw == "mixed" and not split:
+            split = lambda i: i % 2 == 0
+        segs = [[]]
+        for i, a in enumerate(atoms):
+            if i and split and len(atoms) > 1 and split(i):
+                segs.append([])
+            segs[-1].append(a)
+        out = ""
+        for k, seg in enumerate(segs):
+            israw = raw is True or (raw == "mixed" and k % 2 == self.o.get("mixphase", 0))
+            if k:
+                out += '"\\' + self.o.get("splitws", " ")
+            out += ('r"' if israw else '"') + "".join(a[0 if israw else 1] for a in seg)
+        return out + '"'
 
     def r_cat(self, n):
         parts = []
